@@ -41,21 +41,25 @@ Section Conic.
   Lemma Rlit_one : Rlit 10 (-1) = 1. Proof. unfold Rlit; simpl; lra. Qed.
 
   (** the kernel, with the four quantities a b c d named (numerically stable root form:
-      q = -(b + sgn(b) sqrt d)/2,  t1 = q/a,  t2 = c/q) *)
+      q = -(b + sgn(b) sqrt d)/2,  t1 = q/a,  t2 = c/q); a root is discarded when it lies behind the ray or on the
+      sheet of the quadric that does not pass through the vertex ((Rc - (1+k) z) Rc < 0) *)
+  Definition behind (t : xR) : xR := if xltb t (Fin 0) then PInf else t.
+  Definition zat (t : xR) : xR := xadd (Fin z) (xmul t (Fin N)).
+  Definition sheet (t : xR) : xR :=
+    if xltb (xmul (xsub (Fin Rc) (xmul (Fin (1 + k)) (zat t))) (Fin Rc)) (Fin 0) then PInf else t.
+
   Lemma res_unfold :
     res =
     (let sg := if Rltb b 0 then Fin (- 1) else Fin 1 in
      let q := xmul (Fin (- / 2)) (xadd (Fin b) (xmul sg (xsqrt (Fin d)))) in
      let t1 := xdiv q (Fin a) in
      let t2 := if xeqb q (Fin 0) then t1 else xdiv (Fin c) q in
-     let t1' := if xltb t1 (Fin 0) then PInf else t1 in
-     let t2' := if xltb t2 (Fin 0) then PInf else t2 in
-     let z1 := xadd (Fin z) (xmul t1' (Fin N)) in
-     let z2 := xadd (Fin z) (xmul t2' (Fin N)) in
-     let t := if xleb (xabs z1) (xabs z2) then t1' else t2' in
+     let t1' := sheet (behind t1) in
+     let t2' := sheet (behind t2) in
+     let t := if xleb (xabs (zat t1')) (xabs (zat t2')) then t1' else t2' in
      if Reqb a 0 then xdiv (Fin (- c)) (Fin b) else t).
   Proof.
-    unfold res, k_std_distance. xops. cbn [xadd xsub xmul xneg xeqb xltb].
+    unfold res, k_std_distance, sheet, behind, zat. xops. cbn [xadd xsub xmul xneg xeqb xltb].
     rewrite Rlit_half, Rlit_one.
     replace (k * (N * N) + L * L + M * M + N * N) with a by (unfold a; ring).
     replace (2 * k * N * z + 2 * L * x + 2 * M * y + - (2 * N * Rc) + 2 * N * z) with b by (unfold b; ring).
@@ -90,11 +94,40 @@ Section Conic.
     transitivity (c * (q * q + b * q + a * c)); [field; exact Hq0|rewrite Hq; ring].
   Qed.
 
-  (** a finite distance puts the ray on the quadric of the prescription; the point is in
-      front of the ray unless the degenerate [a = 0] branch fired *)
-  Theorem conic_distance_sound t :
+  Lemma xdiv_fin_loc p r : r <> 0 -> xdiv (Fin p) (Fin r) = Fin (p / r).
+  Proof. intros H; cbn. destruct (Req_EM_T r 0); [contradiction|reflexivity]. Qed.
+
+  (** what survives the two filters: nothing (+inf), or a root in front of the ray on the vertex sheet *)
+  Definition onq (t : R) : Prop := c + t*b + t*t*a = 0.
+  Definition front (v : xR) : Prop := v = PInf \/ exists t, v = Fin t /\ 0 <= t /\ onq t.
+  Definition kept (v : xR) : Prop :=
+    v = PInf \/ exists t, v = Fin t /\ 0 <= t /\ onq t /\ 0 <= (Rc - (1 + k) * (z + t * N)) * Rc.
+
+  Lemma behind_front t : onq t -> front (behind (Fin t)).
+  Proof.
+    intros Q. unfold behind. cbn [xltb]. unfold Rltb. destruct (Rlt_dec t 0) as [Hn|Hn]; [left; reflexivity|].
+    right. exists t. repeat split; [lra|exact Q].
+  Qed.
+
+  Lemma sheet_kept v : front v -> kept (sheet v).
+  Proof.
+    intros [->|(t & -> & Ht & Q)]; unfold sheet.
+    - destruct (xltb _ _); left; reflexivity.
+    - unfold zat. cbn [xmul xadd xsub xneg xltb]. unfold Rltb.
+      destruct (Rlt_dec ((Rc + - ((1 + k) * (z + t * N))) * Rc) 0) as [Hs|Hs]; [left; reflexivity|].
+      right. exists t. repeat split; [exact Ht|exact Q|].
+      replace (Rc - (1 + k) * (z + t * N)) with (Rc + - ((1 + k) * (z + t * N))) by ring. lra.
+  Qed.
+
+  Lemma kept_choice (bb : bool) v1 v2 : kept v1 -> kept v2 -> kept (if bb then v1 else v2).
+  Proof. destruct bb; auto. Qed.
+
+  (** a finite distance puts the ray on the quadric of the prescription; unless the degenerate [a = 0] branch fired
+      the point is in front of the ray and on the sheet of the quadric through the vertex *)
+  Theorem conic_distance_sound_sheet t :
     res = Fin t ->
-    quadric (x + t*L) (y + t*M) (z + t*N) = 0 /\ (a <> 0 -> 0 <= t).
+    quadric (x + t*L) (y + t*M) (z + t*N) = 0 /\
+    (a <> 0 -> 0 <= t /\ 0 <= (Rc - (1 + k) * (z + t * N)) * Rc).
   Proof.
     rewrite res_unfold, quadric_along_ray. cbv zeta.
     unfold Reqb. destruct (Req_EM_T a 0) as [Ea|Ea].
@@ -104,7 +137,7 @@ Section Conic.
       + intros H; injection H as <-. split; [|contradiction]. rewrite Ea. field; exact Eb.
     - cbn [xsqrt]. destruct (Rlt_dec d 0) as [Hd|Hd].
       + (* negative discriminant: everything is NaN *)
-        destruct (Rltb b 0); cbn; discriminate.
+        unfold sheet, behind, zat. destruct (Rltb b 0); cbn; discriminate.
       + assert (Hd' : 0 <= d) by lra.
         set (s := if Rltb b 0 then -1 else 1).
         assert (Hs : s = 1 \/ s = -1) by (unfold s; destruct (Rltb b 0); auto).
@@ -112,28 +145,26 @@ Section Conic.
         rewrite Esg. cbn [xmul xadd].
         set (q := - / 2 * (b + s * sqrt d)).
         generalize (q_identity s Hd' Hs). cbv zeta. fold q. intros HQ.
-        cbn [xdiv]. destruct (Req_EM_T a 0) as [|_]; [contradiction|].
-        cbn [xeqb]. unfold Reqb. destruct (Req_EM_T q 0) as [Eq0|Eq0].
-        * (* q = 0: both roots are q/a *)
-          set (t1 := q / a).
-          assert (Q1 : c + t1*b + t1*t1*a = 0) by (apply (root1_on_quadric q Ea HQ)).
-          cbn [xltb]. unfold Rltb. destruct (Rlt_dec t1 0) as [N1|N1]; cbn [xmul xadd xabs xleb].
-          -- destruct (Rlt_dec 0 N); [cbn; discriminate|]. destruct (Rlt_dec N 0); cbn; discriminate.
-          -- unfold Rleb. destruct (Rle_dec _ _); intros H; injection H as <-; (split; [exact Q1|intros _; lra]).
-        * cbn [xdiv]. destruct (Req_EM_T q 0) as [|_]; [contradiction|].
-          set (t1 := q / a). set (t2 := c / q).
-          assert (Q1 : c + t1*b + t1*t1*a = 0) by (apply (root1_on_quadric q Ea HQ)).
-          assert (Q2 : c + t2*b + t2*t2*a = 0) by (apply (root2_on_quadric q Eq0 HQ)).
-          cbn [xltb]. unfold Rltb.
-          destruct (Rlt_dec t1 0) as [N1|N1]; destruct (Rlt_dec t2 0) as [N2|N2]; cbn [xmul xadd xabs xleb].
-          -- destruct (Rlt_dec 0 N); [cbn; discriminate|]. destruct (Rlt_dec N 0); cbn; discriminate.
-          -- destruct (Rlt_dec 0 N); [|destruct (Rlt_dec N 0)]; cbn [xadd xabs xleb];
-               try discriminate; intros H; injection H as <-; (split; [exact Q2|intros _; lra]).
-          -- destruct (Rlt_dec 0 N); [|destruct (Rlt_dec N 0)]; cbn [xadd xabs xleb];
-               try (unfold Rleb; destruct (Rle_dec _ _)); try discriminate;
-               intros H; injection H as <-; (split; [exact Q1|intros _; lra]).
-          -- unfold Rleb. destruct (Rle_dec _ _); intros H; injection H as <-;
-               (split; [assumption|intros _; lra]).
+        rewrite (xdiv_fin_loc q a Ea).
+        assert (Q1 : onq (q / a)) by (apply (root1_on_quadric q Ea HQ)).
+        assert (K1 : kept (sheet (behind (Fin (q / a))))) by (apply sheet_kept, behind_front, Q1).
+        assert (K2 : kept (sheet (behind (if xeqb (Fin q) (Fin 0) then Fin (q / a) else xdiv (Fin c) (Fin q))))).
+        { cbn [xeqb]. unfold Reqb. destruct (Req_EM_T q 0) as [Eq0|Eq0]; [exact K1|].
+          cbn [xdiv]. destruct (Req_EM_T q 0) as [|_]; [contradiction|].
+          apply sheet_kept, behind_front. apply (root2_on_quadric q Eq0 HQ). }
+        intros H.
+        match type of H with (if ?bb then _ else _) = _ => pose proof (kept_choice bb _ _ K1 K2) as K end.
+        rewrite H in K.
+        destruct K as [K|(t' & E & Ht & Q & Hsh)]; [discriminate|].
+        injection E as <-. split; [exact Q|intros _; split; assumption].
+  Qed.
+
+  Theorem conic_distance_sound t :
+    res = Fin t ->
+    quadric (x + t*L) (y + t*M) (z + t*N) = 0 /\ (a <> 0 -> 0 <= t).
+  Proof.
+    intros H. destruct (conic_distance_sound_sheet t H) as [Q P]. split; [exact Q|].
+    intros Ha. apply P, Ha.
   Qed.
 
   (** no real intersection (negative discriminant) is reported as NaN, never as a number *)
@@ -141,7 +172,7 @@ Section Conic.
   Proof.
     intros Ha Hd. rewrite res_unfold. cbv zeta. unfold Reqb.
     destruct (Req_EM_T a 0); [contradiction|].
-    cbn [xsqrt]. destruct (Rlt_dec d 0); [|lra]. destruct (Rltb b 0); reflexivity.
+    cbn [xsqrt]. destruct (Rlt_dec d 0); [|lra]. unfold sheet, behind, zat. destruct (Rltb b 0); reflexivity.
   Qed.
 End Conic.
 
@@ -216,4 +247,26 @@ Proof.
   replace (Rc*(1+s)*(Rc*(1+s))*0) with 0 by ring.
   transitivity (r2*(Rc*Rc)*(1+s)*(1+s) + ((1+k)*r2)*r2 - 2*Rc*Rc*(1+s)*r2); [field; split; assumption|].
   rewrite Hk. ring.
+Qed.
+
+(** a point of the quadric that passes the sheet filter of [k_std_distance] is on the sheet through the vertex,
+    the one [sag] and [surface_normal] describe: it satisfies the hypothesis of [std_normal_parallel_gradient] *)
+Theorem sheet_is_sag_sheet px py pz Rc k :
+  Rc <> 0 -> quadric k Rc px py pz = 0 -> 0 <= (Rc - (1+k)*pz) * Rc ->
+  let rad := 1 - (1+k)*(px*px+py*py)/(Rc*Rc) in
+  0 <= rad /\ Rc - (1+k)*pz = Rc * sqrt rad.
+Proof.
+  intros HR HQ Hs rad. unfold quadric in HQ.
+  set (w := Rc - (1+k)*pz) in *.
+  assert (HR2 : 0 < Rc*Rc) by nra.
+  assert (Hw2 : (w / Rc) * (w / Rc) = rad).
+  { assert (Hr2 : px*px + py*py = 2*Rc*pz - (1+k)*(pz*pz)) by lra.
+    unfold rad. rewrite Hr2. unfold w. field. exact HR. }
+  assert (Hq : 0 <= w / Rc).
+  { replace (w / Rc) with ((w * Rc) / (Rc * Rc)) by (field; exact HR).
+    apply Rmult_le_pos; [exact Hs|]. left. apply Rinv_0_lt_compat, HR2. }
+  split.
+  - rewrite <- Hw2. nra.
+  - rewrite (sqrt_lem_1 rad (w / Rc)); [field; exact HR| |exact Hq|exact Hw2].
+    rewrite <- Hw2. nra.
 Qed.
